@@ -135,9 +135,7 @@ def _dedup_fields(items, key):
     return out
 
 
-@st.composite
-def _cases(draw):
-    rnd = draw(urandoms())
+def _gen_from(rnd):
     vendor = rnd.choice(VENDORS)
     if rnd.chance(35):
         return {"kind": "single", "vendor": vendor, "action": gen_action(rnd)}
@@ -153,6 +151,16 @@ def _cases(draw):
         pols.append({"name": "POL%d" % p, "statements": sts})
     return {"kind": "program", "vendor": vendor, "policies": pols}
 
+
+@st.composite
+def _cases(draw):
+    return _gen_from(draw(urandoms()))
+
+
+def fuzz_decode(fdp):
+    """coverage-guided tier: the same generator driven by fuzzer-chosen bytes (vf/core/fuzz_target.py)"""
+    from vf.model.rnd import FdpRandom
+    return _gen_from(FdpRandom(fdp))
 
 def strategy(tier):
     return _cases()
